@@ -451,6 +451,62 @@ class ConvArith:
         return None
 
 
+def conv_run(ca, lean, cov, seed, tier):
+    """Mode C job: the converter's AW/AR arithmetic on the real netlist vs `upConv`/`downConv`, plus the byte-set
+    oracle (model independent).  Returns a list of JSON-able disagreement dicts."""
+    import random
+    quick = tier == "quick"
+    rng = random.Random(seed * 131 + ca.dw_from * 7 + ca.dw_to)
+    reqs = list(conv_requests(rng, ca.aw, ca.sf, ca.st, quick)) + list(conv_supported_requests(rng, ca, 150 if quick else 1500))
+    ans = lean.call_batch([ca.lean_line(r) for r in reqs])
+    dis = []
+    nsup = 0
+    ofail = None
+    for k, (r, line) in enumerate(zip(reqs, ans)):
+        ch = "aw" if k % 2 == 0 else "ar"
+        got = ca.impl(r, ch)
+        want = tuple(int(w) for w in line.split())
+        if ca.supported(r):
+            nsup += 1
+            m = ca.oracle(r, got)
+            if m and ofail is None:
+                ofail = {"instance": ca.name, "kind": "monitor:" + m, "channel": ch, "request": list(r),
+                         "forwarded": list(got), "monitor": m}
+        if got != want and len(dis) < 3:
+            dis.append({"instance": ca.name, "kind": "conv-arith", "channel": ch, "request": list(r),
+                        "impl": list(got), "model": list(want)})
+    if ofail:
+        dis.append(ofail)
+    cov.add_cases(ca.name, len(reqs), nsup, exhaustive=False)
+    cov.count("conv-arith requests", len(reqs))
+    cov.count("conv-arith requests in the byte-preserving region", nsup)
+    return dis
+
+
+def conv_supported_requests(rng, ca, n):
+    """Requests inside the region where the converter is claimed to preserve the bytes."""
+    aw = ca.aw
+    for _ in range(n):
+        if ca.kind == "up":
+            ratio = 1 << (ca.st - ca.sf)
+            beats = ratio * rng.randint(1, 256 // ratio)
+            ln = beats - 1
+            nb = 1 << ca.sf
+            room = 4096 - beats * nb
+            if room < 0:
+                continue
+            off = (rng.randint(0, room) >> ca.st) << ca.st
+            yield ((rng.randrange(1 << (aw - 12)) << 12) + off, ln, ca.sf, INCR)
+        else:
+            ratio = 1 << (ca.sf - ca.st)
+            nb = 1 << ca.sf
+            ln = rng.randint(0, min(256 // ratio, 4096 // nb) - 1)
+            room = 4096 - (ln + 1) * nb
+            off = (rng.randint(0, room) >> ca.sf) << ca.sf
+            yield ((rng.randrange(1 << (aw - 12)) << 12) + off + (rng.randrange(nb) if rng.random() < 0.3 else 0),
+                   ln, ca.sf, INCR)
+
+
 def conv_requests(rng, aw, sf, st, quick):
     """Request grid for the arithmetic differential: all (len, size, burst) with two addresses each in the
     thorough tier; in the quick tier all sizes/bursts with a structured sample of lengths."""
@@ -676,6 +732,8 @@ def _worker(idx):
             dis = coexplore(inst, lean, cov, **job.kw)
         elif job.mode == "D":
             dis = coexplore_dyn(inst, lean, cov, **job.kw)
+        elif job.mode == "C":
+            return idx, cov.__dict__, conv_run(inst, lean, cov, seed, tier)
         else:
             rng = random.Random(seed * 7919 + idx)
             dis = cosim(inst, lean, cov, rng, **job.kw)
@@ -690,7 +748,7 @@ def run_jobs(ctx, jobs, procs=None):
     import multiprocessing as mp
     _JOBS = jobs
     _CTXINFO = (ctx.prop, ctx.seed, ctx.tier)
-    procs = procs or min(len(jobs), int(os.environ.get("VERIF_PROCS", "0")) or 6)
+    procs = procs or min(len(jobs), int(os.environ.get("VERIF_PROCS", "0")) or (os.cpu_count() or 4))
     if procs <= 1 or len(jobs) <= 1:
         results = [_worker(i) for i in range(len(jobs))]
     else:
@@ -709,7 +767,12 @@ def run_jobs(ctx, jobs, procs=None):
         for k, v in covd["hist"].items():
             ctx.cov.count(k, v)
         ctx.cov.notes += covd["notes"]
-        for (trace, cycle, io, mo, kind, iname, lopen) in ds:
+        for item in ds:
+            if isinstance(item, dict):
+                item["job"] = idx
+                dis.append(item)
+                continue
+            (trace, cycle, io, mo, kind, iname, lopen) = item
             d = Disagreement(None, trace, cycle, io, mo, kind)
             d.inst_name, d.lean_open, d.job = iname, lopen, idx
             dis.append(d)
